@@ -3,12 +3,19 @@
 import sys, os, json
 HERE = os.path.dirname(os.path.dirname(os.path.abspath(__file__)))
 sys.path.insert(0, HERE)
+import importlib
 from sa import registry as R
+CLAIMED = {}
+for pid in R.ALL_IDS:
+    if os.path.isfile(os.path.join(HERE, 'sa', 'rules', pid.lower() + '.py')):
+        mod = importlib.import_module('sa.rules.' + pid.lower())
+        CLAIMED[pid] = mod.META
 checks = []
 for pid in R.ALL_IDS:
-    if pid not in R.CLAIMED:
+    if pid not in CLAIMED:
         continue
-    tech, text, note, ref = R.CLAIMED[pid]
+    M = CLAIMED[pid]
+    tech, text, note, ref = M['technique'], M['level'], M['note'], M['ref']
     checks.append({
         'property_id': pid,
         'quick_cmd': f'./check {pid} --tier quick',
@@ -22,7 +29,7 @@ for pid in R.ALL_IDS:
     })
 na = []
 for pid in R.ALL_IDS:
-    if pid in R.CLAIMED:
+    if pid in CLAIMED:
         continue
     reason = R.NOT_APPLICABLE.get(pid, 'static check not built yet in this round (see DESIGN.md build order); not claimed')
     na.append({'property_id': pid, 'reason': reason})
@@ -32,7 +39,7 @@ man = {
     'hooks': {'guard': 'ECMWF_IFS_LOKI_VERIF', 'enable': 'no hooks: checks read /repo source text only; nothing in /repo is instrumented',
               'baseline_off_cmd': 'cd /repo && /venv/bin/python -m pytest -ra -q -p no:cacheprovider --timeout=900 --continue-on-collection-errors',
               'source_commits': [], 'add_only': True},
-    'engines': [{'name': 'sa', 'path': '/verif/sa', 'serves_properties': sorted(R.CLAIMED),
+    'engines': [{'name': 'sa', 'path': '/verif/sa', 'serves_properties': sorted(CLAIMED),
                  'kind_free_text': 'repository-specific static analysis over Python ast: resolved class model (imports, C3 MRO, dataclass fields), static visitor/mapper dispatch, statement-level flow, operator-precedence tables, regex ASTs; no code from /repo is executed'}],
     'checks': checks,
     'not_applicable': na,
